@@ -131,6 +131,7 @@ func c06Body(x *explore.Ctx, L int, readerIsServer, deflate bool, h1, maxFrags i
 		claimAfterPartial = (sizeSel-3)/len(c06Claims) == 1
 	}
 	var wire, app []byte
+	nonMinimal := false
 	rsv1 := false
 	var cuts []int
 	over := false
@@ -159,6 +160,20 @@ func c06Body(x *explore.Ctx, L int, readerIsServer, deflate bool, h1, maxFrags i
 			lo = c
 		}
 		nextFrames = wsref.Fragment(wsref.OpBinary, wire, diffs(cuts), masked, [][4]byte{mk}, rsv1)
+		// the peer may (against the RFC, but the reader accepts it) spell small lengths in the
+		// 16- or 64-bit form: if the reader accepts such frames the limit must apply to the real length
+		switch x.Choose(3, "length-form") {
+		case 1:
+			for i := range nextFrames {
+				nextFrames[i].LenForm = 16
+			}
+			nonMinimal = true
+		case 2:
+			for i := range nextFrames {
+				nextFrames[i].LenForm = 64
+			}
+			nonMinimal = true
+		}
 		sum := 0
 		for i, f := range nextFrames {
 			sum += len(f.Payload)
@@ -214,7 +229,16 @@ func c06Body(x *explore.Ctx, L int, readerIsServer, deflate bool, h1, maxFrags i
 		nc.Chunk = netsim.ChunkFixed(ch)
 	}
 	c := websocket.VerifNewConn(nc, readerIsServer, 0, 0, nil, deflate)
-	c.SetReadLimit(int64(L))
+	// the limit is in force from the start, or raised/lowered to L only after the history was
+	// consumed (a limit applies to messages started after it was set)
+	limitLate := x.Choose(3, "SetReadLimit-timing")
+	switch limitLate {
+	case 0:
+		c.SetReadLimit(int64(L))
+	case 1:
+		c.SetReadLimit(int64(L) + 1000)
+	case 2: // no limit while the history is read
+	}
 	x.NonTrivial()
 	// ---- consume history
 	for i, h := range hs {
@@ -232,6 +256,9 @@ func c06Body(x *explore.Ctx, L int, readerIsServer, deflate bool, h1, maxFrags i
 			var b [1]byte
 			r.Read(b[:])
 		}
+	}
+	if limitLate != 0 {
+		c.SetReadLimit(int64(L))
 	}
 	// ---- the message under test
 	prog := x.Pick(3, "readprog")
@@ -260,6 +287,9 @@ func c06Body(x *explore.Ctx, L int, readerIsServer, deflate bool, h1, maxFrags i
 		}
 	}
 	x.Obs("L=%d s=%d claim=%x over=%v cross=%d got=%d err=%v out=%s", L, s, claim, over, crossFrame, len(got), err, short(nc.Out))
+	if !over && nonMinimal && err != nil && err != websocket.ErrReadLimit {
+		return // a reader may reject non-minimal length encodings as a protocol error
+	}
 	if !over {
 		x.Check(err == nil, k("within-limit-rejected"), "message of %d wire bytes (limit %d, fragments %v, history %d/%d) failed: %v", len(wire), L, cuts, hs[0].kind, hs[1].kind, err)
 		x.Check(typ == websocket.BinaryMessage && bytes.Equal(got, app), k("within-limit-corrupt"), "within-limit message delivered %s, want %s", short(got), short(app))
